@@ -285,11 +285,12 @@ CHECKS = {
                     'g_b of two complete key exchanges (child processes) and the SRP value A must differ. Seed recovery: the nanosecond window around NewMTProto / MakeGAB is '
                     'recorded and every candidate seed in it (plus its us/ms/s roundings, 0, 1, pid) is replayed on a private math/rand source; reproducing the first nonce or '
                     'the returned exponent means the secret was derived from the clock. A secret from the OS CSPRNG fails none of these except with probability ~2^-128. '
-                    'The draw paths are straight-line, so one execution covers the path; a source that is low-entropy in some other way (hostname, pid*time hash) escapes this check.'),
+                    'The DH exponent is also drawn under server-chosen parameters (8 primes from 7 to the real one x generators 2..7, enumerated and generated) so that a '
+                    'fallback path taken only for unusual groups is exercised. Otherwise the draw paths are straight-line, so one execution covers the path; a source that is low-entropy in some other way (hostname, pid*time hash) escapes this check.'),
         technique='metamorphic reseeding and clock-window seed recovery over generated seeds (rapid); falsification of unpredictability, not proof of provenance',
-        rule=('case = (kind in {reseed-nonces, reseed-exchange, reseed-srp, clock-nonce, clock-exponent}, seed value, g, password). Every case is non-trivial; distinct by hash of the case. '
+        rule=('case = (kind in {reseed-nonces, reseed-exchange, reseed-srp, clock-nonce, clock-exponent, reseed-exponent-params}, seed value, g, password, dh_prime, g_a). Every case is non-trivial; distinct by hash of the case. '
               'coverage.classes["seed-candidates-tried"] counts the candidate seeds replayed.'),
-        must_hit=['kind:reseed-nonces', 'kind:clock-nonce', 'kind:clock-exponent', 'kind:reseed-srp', 'seed-candidates-tried'],
+        must_hit=['kind:reseed-nonces', 'kind:clock-nonce', 'kind:clock-exponent', 'kind:reseed-srp', 'kind:reseed-exponent-params', 'small-group', 'seed-candidates-tried'],
         assumptions=['the statement quantifies over code paths; this check executes the (straight-line) paths under generated environments and can only refute unpredictability',
                      'the exponent\'s seed, if clock-derived, is read within 300 us of entering MakeGAB (it is needed before the exponentiations that dominate the call)'],
     ),
